@@ -197,6 +197,9 @@ func (s *Solver) Check() string {
 	}
 	s.Queries++
 	s.Time += time.Since(t0)
+	if s.logf != nil {
+		fmt.Fprintf(s.logf, "; time_ms=%d\n", time.Since(t0).Milliseconds())
+	}
 	if sawErr || (res != "sat" && res != "unsat") {
 		return "unknown"
 	}
